@@ -23,7 +23,9 @@ import (
 //	fullsync <W>         listers := W; PolicyManager.Run()          (policies -> policy rules -> pod chains)
 //	ev <kind> <W> <ns>/<name> [<Wold>]
 //	                     listers := W; call the event handler; kind in addpol updpol delpol updpod delpod
-//	check <W>            evaluate the four clauses of C15 for world W (a fullsync <W> must precede it)
+//	fault ipset-create <match|*> <n>   the next n `ipset create` calls for a set whose name contains <match> fail
+//	check <W>            evaluate the four clauses of C15 for world W (a fullsync <W> must precede it), and compare
+//	                     the flow verdicts of the final rules with those of a from-scratch sync of W
 //
 // The kernel is the pair of STRICT fakes of harness/nf (iptables-restore all-or-nothing, -X / destroy fail
 // while referenced, rules need their chains / sets).
@@ -31,14 +33,16 @@ import (
 
 type StrictBackend struct {
 	Backend
-	Ipt *nf.IPTables
-	Ips *nf.IPSets
+	Ipt   *nf.IPTables
+	Ips   *nf.IPSets
+	Fault *FaultIPS // fault injection in front of Ips (ipset create)
 }
 
 func NewStrictBackend() *StrictBackend {
 	ipt, ips := nf.NewIPTables(), nf.NewIPSets()
 	ipt.LinkSets(ips)
-	return &StrictBackend{Backend: Backend{Ipt: ipt, Ips: ips}, Ipt: ipt, Ips: ips}
+	f := &FaultIPS{Interface: ips}
+	return &StrictBackend{Backend: Backend{Ipt: ipt, Ips: f}, Ipt: ipt, Ips: ips, Fault: f}
 }
 
 type WorldDef struct {
@@ -137,6 +141,14 @@ type C15Run struct {
 	NoDriver  bool
 	Nontriv   bool
 	lastPrior *Dump // kernel state before the last fullsync
+	verdicts  []verdictPair
+}
+
+// verdictPair: driver lines [i, i+n) walk the final dump, [j, j+n) the from-scratch dump, same flows
+type verdictPair struct {
+	i, j, n int
+	attr    string // known finding the leftovers of this check belong to ("" = none)
+	world   string
 }
 
 type drvExpect struct {
@@ -317,6 +329,18 @@ func (r *C15Run) Exec(line string) error {
 		}
 		r.sb.Ipt.Load("filter", t)
 		r.foreign = r.takeDump().Foreign().Canon()
+	case "fault":
+		if len(w) != 4 || w[1] != "ipset-create" {
+			return fmt.Errorf("bad line %q", line)
+		}
+		n := 0
+		fmt.Sscanf(w[3], "%d", &n)
+		match := w[2]
+		if match == "*" {
+			match = ""
+		}
+		r.sb.Fault.Arm(match, n)
+		r.rep.Hit("op:fault:ipset-create")
 	case "restart":
 		r.m = NewManager(r.sb.Backend, LocalNode, nil)
 	case "fullsync":
@@ -332,12 +356,22 @@ func (r *C15Run) Exec(line string) error {
 			r.Nontriv = true
 		}
 		r.lastPrior = prior
+		hits0 := r.sb.Fault.Hits
 		if !r.guard("fullsync "+w[1], func() { r.m.FullSync() }) {
 			return nil
 		}
 		sub, all := r.newFailures()
-		r.classifyFailures("fullsync "+w[1], all)
-		r.drvSync(prior, wd, "fullsync", r.takeDump(), sub)
+		if r.sb.Fault.Hits > hits0 {
+			// an injected `ipset create` failure aborted syncRules half way (map order): no model step for it, and the
+			// failures it cascades into (pod batches jumping to policy chains that were not created) are its own
+			r.rep.Hit("fullsync-with-injected-ipset-create-failure")
+			for _, ev := range all {
+				r.rep.Hit("fault-cascade:" + ev.Op + ":" + ev.Class)
+			}
+		} else {
+			r.classifyFailures("fullsync "+w[1], all)
+			r.drvSync(prior, wd, "fullsync", r.takeDump(), sub)
+		}
 		r.synced = w[1]
 		r.rep.Hit("op:fullsync")
 	case "ev":
@@ -351,6 +385,9 @@ func (r *C15Run) Exec(line string) error {
 		nsname := strings.SplitN(w[3], "/", 2)
 		if len(nsname) != 2 {
 			return fmt.Errorf("bad line %q", line)
+		}
+		if len(w) >= 6 && strings.HasPrefix(w[5], "#") {
+			r.rep.Hit("update:" + w[5][1:])
 		}
 		old := wd
 		if len(w) >= 5 {
@@ -462,10 +499,42 @@ func (r *C15Run) check(w string) error {
 		return err
 	}
 	exact := got.Owned().Canon() == want.Owned().Canon()
+	d13Before, d17Before := r.Sigs["stale-pod-chain-not-collected"], r.Sigs["stale-policy-chain-referenced-sync-fails"]
 	if !exact {
 		r.classifyInexact(w, wd, got.Owned(), want.Owned())
 	} else {
 		r.rep.Hit("check:exact")
+	}
+	// ---- the flow verdicts of the final rules vs those of the from-scratch rules (walk in Lean over both dumps)
+	if !r.NoDriver {
+		attr := ""
+		switch {
+		case r.Sigs["stale-policy-chain-referenced-sync-fails"] > d17Before || r.d17:
+			attr = "stale-policy-chain-referenced-sync-fails"
+		case r.Sigs["stale-pod-chain-not-collected"] > d13Before:
+			attr = "stale-pod-chain-not-collected"
+		}
+		flows := Flows(&wd.C, wd.PS)
+		if len(flows) > 240 {
+			step := len(flows)/240 + 1
+			var fs []Flow
+			for i := 0; i < len(flows); i += step {
+				fs = append(fs, flows[i])
+			}
+			flows = fs
+		}
+		r.drv = append(r.drv, worldLines(wd)...)
+		r.drv = append(r.drv, got.DriverLines()...)
+		i0 := len(r.drv)
+		for _, f := range flows {
+			r.drv = append(r.drv, f.Line())
+		}
+		r.drv = append(r.drv, want.DriverLines()...)
+		j0 := len(r.drv)
+		for _, f := range flows {
+			r.drv = append(r.drv, f.Line())
+		}
+		r.verdicts = append(r.verdicts, verdictPair{i0, j0, len(flows), attr, w})
 	}
 	// ---- clause 2: synchronising again changes nothing
 	if !r.guard("second fullsync "+w, func() { r.m.FullSync() }) {
@@ -684,7 +753,7 @@ func (r *C15Run) Finish() {
 	} else {
 		r.rep.Hit("check:frame")
 	}
-	if len(r.expect) == 0 || r.NoDriver {
+	if (len(r.expect) == 0 && len(r.verdicts) == 0) || r.NoDriver {
 		return
 	}
 	out, err := r.e.RunDriver("policy", r.drv)
@@ -699,6 +768,32 @@ func (r *C15Run) Finish() {
 				Index: ex.idx, Impl: firstDiff(ex.want, out[ex.idx], true), Model: firstDiff(ex.want, out[ex.idx], false),
 				Replay: r.replay("")})
 			return
+		}
+	}
+	for _, vp := range r.verdicts {
+		diff := 0
+		first := ""
+		for x := 0; x < vp.n; x++ {
+			a, b := parseKV(out[vp.i+x]), parseKV(out[vp.j+x])
+			if a == nil || b == nil {
+				continue
+			}
+			if a["real"] != b["real"] {
+				diff++
+				if first == "" {
+					first = r.drv[vp.i+x] + ": " + a["real"] + " vs from-scratch " + b["real"]
+				}
+			}
+		}
+		r.rep.Histogram["verdicts-compared-with-from-scratch"] += vp.n
+		if diff == 0 {
+			continue
+		}
+		r.rep.Histogram["verdicts-differing-from-scratch"] += diff
+		if vp.attr != "" {
+			r.violate(vp.attr, fmt.Sprintf("after fullsync %s the leftovers change flow verdicts: %s", vp.world, first))
+		} else {
+			r.violate("verdict-differs-from-scratch", fmt.Sprintf("after fullsync %s: %s", vp.world, first))
 		}
 	}
 	for i, l := range out {
@@ -888,6 +983,22 @@ func GenHistory(rg *rand.Rand) []string {
 		if rg.Intn(2) == 0 {
 			ops = append(ops, "lchain GLX-INGRESS", "lchain GLX-POD-GONEGONEGONEGONE", "lrule GLX-POD-GONEGONEGONEGONE -m comment --comment gone_ns1 -j DROP",
 				"lrule GLX-INGRESS -d 10.0.9.9/32 -m comment --comment gone_ns1 -j GLX-POD-GONEGONEGONEGONE")
+		}
+	}
+	// ---- UPDATE transitions on the live manager (no restart, no pod moves): a third of the histories
+	if rg.Intn(3) == 0 {
+		if prior == 0 {
+			ops = append(ops, "fullsync A")
+		}
+		worlds, steps := GenUpdates(rg, a)
+		if len(worlds) > 0 {
+			ops = append(ops, UpdateOps("A", worlds, steps)...)
+			last := fmt.Sprintf("U%d", len(worlds))
+			if rg.Intn(5) == 0 {
+				ops = append(ops, "fault ipset-create * 1", "fullsync "+last)
+			}
+			ops = append(ops, "fullsync "+last, "check "+last)
+			return ops
 		}
 	}
 	// ---- from A to B
